@@ -128,6 +128,9 @@ type Result struct {
 	SitesHit    []int `json:"sites_hit,omitempty"`
 	SitesSwitch []int `json:"sites_switch,omitempty"`
 
+	IsoChecked int      `json:"iso_checked,omitempty"`
+	PipeHashes []string `json:"pipe_hashes,omitempty"` // C11: per flattened pipeline, hash of all it observed
+
 	Tape      [][2]int64 `json:"tape,omitempty"`
 	FaultTape []int64    `json:"fault_tape,omitempty"`
 	Trace     []string   `json:"trace,omitempty"`
